@@ -58,6 +58,11 @@ type Scen struct {
 	// OCI statement but this (other) level, and the judged envelope is first verified as a blob
 	// under it; statement names are only unique within one document
 	BlobTwin string `json:"blobTwin,omitempty"` // "" strict permissive audit skip
+	// MoreStores: the statement lists further stores of the required type around "x". They load
+	// fine; when "x" cannot be loaded the later/earlier one even holds the signer's root (a
+	// store that cannot be loaded fails authenticity whatever the other stores hold), otherwise
+	// they hold an unrelated root. "" none, "after", "before", "around"
+	MoreStores string `json:"moreStores,omitempty"`
 	// Warm: an earlier verification on the SAME verifier with another envelope (other expiry /
 	// certificate times / attributes); it is not judged and must not influence the judged one
 	Warm *Warm `json:"warm,omitempty"`
@@ -73,7 +78,7 @@ type Warm struct {
 }
 
 func (s *Scen) fp() uint64 {
-	return stats.Fingerprint(s.Level.Key(), s.Level.String(), s.Scheme, s.Format, s.Trust, s.Identity, s.Expiry, s.CertTime, s.Rev, s.Plugin, s.MinVer, s.TIVerdict, s.RVVerdict, s.PluginErr, s.Crit, s.CritInt, s.CritKeyKind, s.CapOrder, s.Filler, s.FillerProcessed, s.BlobTwin, fmt.Sprintf("%+v", s.Warm))
+	return stats.Fingerprint(s.Level.Key(), s.Level.String(), s.Scheme, s.Format, s.Trust, s.Identity, s.Expiry, s.CertTime, s.Rev, s.Plugin, s.MinVer, s.TIVerdict, s.RVVerdict, s.PluginErr, s.Crit, s.CritInt, s.CritKeyKind, s.CapOrder, s.Filler, s.FillerProcessed, s.BlobTwin, s.MoreStores, fmt.Sprintf("%+v", s.Warm))
 }
 
 const pluginName = "verif-plugin"
@@ -284,7 +289,25 @@ func realise(s *Scen) (*run, error) {
 		ts.Fail(storeType, "x", errors.New("scripted load error"))
 	}
 	ids := map[string]string{"wildcard": "*", "match": "x509.subject:C=US,ST=WA,O=verif", "mismatch": "x509.subject:C=US,ST=WA,O=somebody else", "nonx509": "other.scheme:thing"}
-	doc := kit.OCIDoc("p", s.Level.SV(""), []string{storeType + ":x"}, []string{ids[s.Identity]})
+	stores := []string{storeType + ":x"}
+	if s.MoreStores != "" {
+		if s.Trust == "loaderr" {
+			ts.Put(storeType, "before", ch.Root().Cert)
+			ts.Put(storeType, "after", ch.Root().Cert)
+		} else {
+			ts.Put(storeType, "before", otherRoot.Cert)
+			ts.Put(storeType, "after", otherRoot.Cert)
+		}
+		switch s.MoreStores {
+		case "after":
+			stores = append(stores, storeType+":after")
+		case "before":
+			stores = append([]string{storeType + ":before"}, stores...)
+		case "around":
+			stores = append(append([]string{storeType + ":before"}, stores...), storeType+":after")
+		}
+	}
+	doc := kit.OCIDoc("p", s.Level.SV(""), stores, []string{ids[s.Identity]})
 	rev := &mocks.Revocation{}
 	switch s.Rev {
 	case "revoked":
@@ -553,6 +576,12 @@ func classes(s *Scen, v verdict) []string {
 	if s.BlobTwin != "" {
 		cl = append(cl, "blob-statement-with-same-name", "blob-twin-level="+s.BlobTwin)
 	}
+	if s.MoreStores != "" {
+		cl = append(cl, "several-listed-stores")
+		if s.Trust == "loaderr" {
+			cl = append(cl, "unloadable-store-beside-a-store-holding-the-root")
+		}
+	}
 	if s.Filler != "" {
 		cl = append(cl, "noncritical-attr-"+s.Filler)
 		if !s.FillerProcessed && s.Plugin != "none" {
@@ -639,6 +668,7 @@ func drawScen(rt *rapid.T) *Scen {
 	s.Filler = rp.Pick(rt, "filler", "", "", "", "before", "after", "both")
 	s.BlobTwin = rp.Pick(rt, "blobTwin", "", "", "", "", "strict", "permissive", "audit", "skip")
 	s.FillerProcessed = s.Filler != "" && rapid.Bool().Draw(rt, "fillerProcessed")
+	s.MoreStores = rp.Pick(rt, "moreStores", "", "", "", "after", "after", "before", "around")
 	if rapid.IntRange(0, 3).Draw(rt, "warm") == 0 {
 		s.Warm = &Warm{Expiry: rp.Pick(rt, "wExpiry", "none", "future", "past"), CertTime: rp.Pick(rt, "wCertTime", "valid", "leafexpired", "cafuture"),
 			Plugin: rapid.Bool().Draw(rt, "wPlugin"), Crit: rapid.IntRange(0, 3).Draw(rt, "wCrit") == 0, Format: rp.Pick(rt, "wFormat", envb.MTJWS, envb.MTCOSE)}
